@@ -24,8 +24,8 @@ HARNESS = os.environ.get("VERIF_HARNESS") or os.path.join(VERIF, "harness")
 CACHE = os.path.join(VERIF, ".cache")
 TARGET = os.environ.get("VERIF_TARGET") or os.path.join(CACHE, "target")
 CASES = os.path.join(CACHE, "cases")
-EVIDENCE = os.path.join(VERIF, "evidence")
-REPLAYS = os.path.join(VERIF, "replays")
+EVIDENCE = os.environ.get("VERIF_EVIDENCE") or os.path.join(VERIF, "evidence")   # override: mutation runs only
+REPLAYS = os.environ.get("VERIF_REPLAYS") or os.path.join(VERIF, "replays")
 CORPUS = os.path.join(VERIF, "corpus")
 REPO = "/repo"
 
